@@ -97,6 +97,11 @@ func verifC07SeekRead() {
 	b1 := zzverif.BigBytes("b1", 64)
 	n1, e1 := j.Read(b1)
 	if e1 == nil {
+		w1 := size - cur
+		if int64(len(b1)) < w1 {
+			w1 = int64(len(b1))
+		}
+		zzverif.Assert(int64(n1) == w1, "Read returns min(len, size-position) bytes")
 		zzverif.Assert(j.off == cur+int64(n1), "Read advances by n")
 		k := zzverif.Int("k")
 		zzverif.Assume(k >= 0 && k < n1)
@@ -187,6 +192,12 @@ func verifC07TwoLevelReadAt() {
 		p := off + int64(i) // position in the file
 		c := int(p / int64(boson.ChunkSize))
 		zzverif.Assert(b[i] == g.data[c][8+p%int64(boson.ChunkSize)], "bytes equal the content")
+		// the sequential reader from the same position returns the same count
+		// (also when the range crosses a chunk boundary)
+		j.off = off
+		n2, err2 := j.Read(b)
+		zzverif.Assert(err2 == nil && int64(n2) == want, "Read returns min(len, size-position) bytes across chunk boundaries")
+		zzverif.Assert(j.off == off+int64(n2), "Read advances by n across chunk boundaries")
 	}
 	zzverif.Reach("C07-two-level-readat")
 }
